@@ -398,6 +398,10 @@ def r18_7(ctx):
                 continue
             kw = {k.arg: k.value for k in n.keywords if k.arg}
             t, num = kw.get("type"), kw.get("number")
+            if isinstance(t, ast.Name):
+                # a temporary holding the classification
+                from ..astutil import single_defs as _sdf
+                t = _sdf(fn.node).get(t.id, t)
             if t is None or num is None or not isinstance(t, ast.IfExp) or not isinstance(num, ast.Name):
                 continue
             sites += 1
